@@ -81,6 +81,11 @@ def unit_targets(fns_t, fns_f):
     if et is None or ef is None: raise ParseError("impl From<PositionDerivative> for Unit not found")
     out.append({"name": "g_From_P_U", "entry": et, "entry_f": ef, "self_type": "Unit", "opcode": 29, "args": [(et["params"][0], "PositionDerivative")],
                 "runner": "val", "what": "impl From<PositionDerivative> for Unit", "dual": True})
+    # exists only with checking on (the impl itself carries the cfg attribute)
+    et, ef = both("PositionDerivative", "try_from", "TryFrom", ["Unit"])
+    if et is None: raise ParseError("impl TryFrom<Unit> for PositionDerivative not found")
+    out.append({"name": "g_TryFrom_U_P", "entry": et, "entry_f": ef, "self_type": "PositionDerivative", "opcode": 28, "args": [(et["params"][0], "Unit")],
+                "runner": "try", "what": "impl TryFrom<Unit> for PositionDerivative", "dual": True})
     for (ty, fn), (op, runner, argt, has_self) in UNIT_INH.items():
         et, ef = both(ty, fn, None, None)
         if et is None: raise ParseError("%s::%s not found" % (ty, fn))
